@@ -31,6 +31,7 @@ using vh::I; using vh::Line; using vh::Out;
 
 static std::map<long, std::unique_ptr<Obj>> regs;
 static long pending_arm = -1;
+static bool hll_case = false;     // every register of the case holds an hll_sketch / hll_union: R reports live bytes
 
 static Obj& get(I r) {
   auto it = regs.find((long)r);
@@ -99,6 +100,14 @@ static void body(const Line& t, Out& o, long& retained) {
   }
 }
 
+// HLL block ledger: for operations whose target register holds an hll_sketch / hll_union the harness reports the shape of the
+// impl object(s) after the operation (E) and the total live bytes of the tracking allocator in place of the item-slot count
+static bool is_hll(I r) { auto it = regs.find((long)r); if (it == regs.end() || !it->second) return false; const int k = it->second->kind(); return k == 7 || k == 15; }
+static void emit_shape(I r, Out& o) {
+  Obj& x = get(r);
+  if (x.kind() == 7) hll_shape(static_cast<HllObj&>(x).s, o); else hll_shape(static_cast<HuObj&>(x).s.gadget_, o);
+}
+
 static void handler(const Line& t, Out& o) {
   State& s = st();
   const int op = (int)t.at(0);
@@ -113,13 +122,22 @@ static void handler(const Line& t, Out& o) {
   s.throw_countdown = pending_arm; pending_arm = -1;
   const long throws0 = s.throws;
   long retained = 0; int status = 1;
-  try { body(t, o, retained); }
+  try {
+    body(t, o, retained);
+    if (op == 1) { const int k = (int)t.at(2); if (k == 7 || k == 15) { if (regs.size() == 1) hll_case = true; } else hll_case = false; }
+    if (t.size() > 1 && op != 10 && op != 2 && op != 99 && is_hll(t.at(1))) {
+      if (op == 1) hll_sizes(o);
+      emit_shape(t.at(1), o);
+      if ((op == 4 || op == 6 || op == 8) && t.size() > 4 && t.at(3) != 0 && t.at(1) != t.at(2) && is_hll(t.at(2))) emit_shape(t.at(2), o);   // follow-up assignment
+      if (op == 13) emit_shape(t.at(2), o);
+    }
+  }
   catch (const std::exception&) { status = -1; retained = 0; }
   s.throw_countdown = -1;
-  o.R(status); o.R(retained); o.R(s.live_items); o.R(s.item_slots); o.R(s.flags & HYGIENE);
+  o.R(status); o.R(retained); o.R(s.live_items); o.R(hll_case ? s.live_bytes : s.item_slots); o.R(s.flags & HYGIENE);
   o.F((s.flags & F_MOVE_FROM_MOVED) ? 1 : 0); o.F(s.throws - throws0);
 }
 
 int main(int argc, char** argv) {
-  return vh::run_main(argc, argv, [] { regs.clear(); pending_arm = -1; reset_tracking(); caller_pool().clear(); }, handler);
+  return vh::run_main(argc, argv, [] { regs.clear(); pending_arm = -1; hll_case = false; reset_tracking(); caller_pool().clear(); }, handler);
 }
